@@ -114,10 +114,10 @@ theorem scanBody_term (n : Nat) : ∀ l : List UInt8, l.length ≤ n → Term l 
             | cons _ _ => simp
           simp only [List.length_cons]; omega
         · simp only [h34, if_false, Bool.false_eq_true]
-          by_cases h0 : (c == 0) = true
+          by_cases h0 : c.toNat < 32
           · simp [h0]
-          · simp only [h0, if_false, Bool.false_eq_true]
-            have hc0 : c ≠ 0 := by simpa using h0
+          · simp only [h0, if_false]
+            have hc0 : c ≠ 0 := by intro h; subst h; simp at h0
             have htr := Term_tail c rest ht hc0
             obtain ⟨h1, h2⟩ := ih rest (by omega) htr
             cases hsb : scanBody rest with
